@@ -80,6 +80,7 @@ type zzC18Step struct {
 	Reset bool                  `json:"reset"`
 	H     string                `json:"h"`
 	Act   string                `json:"act"`
+	Form  string                `json:"form"`
 	Doc   *zzC18Doc             `json:"doc"`
 	Out   string                `json:"out"`
 	Src   *zzC18Pair            `json:"src"`
@@ -139,6 +140,10 @@ func zzC18PutBody(rng *rand.Rand, doc *zzC18Doc) (body string) {
 type zzC18Holder struct {
 	d         *DNSFilter
 	useClient bool
+
+	// noIDs: the holder was started from a configuration without any blocked
+	// service.
+	noIDs bool
 }
 
 func zzC18NewHolder(t testing.TB) (h *zzC18Holder) {
@@ -161,6 +166,39 @@ func zzC18NewHolderWith(t testing.TB, bs *BlockedServices) (h *zzC18Holder) {
 	h.d = d
 
 	return h
+}
+
+// zzC18LoadNone starts a server from a configuration file whose blocked
+// services carry no schedule, in the given spelling, decoded on top of the
+// default configuration as home/config.go does.
+func zzC18LoadNone(t testing.TB, form string) (h *zzC18Holder, detail string) {
+	conf := &zzC18ConfigFile{
+		BlockedServices: &BlockedServices{Schedule: schedule.EmptyWeekly(), IDs: []string{}},
+	}
+
+	ids := fmt.Sprintf("  ids:\n  - %s\n", zzC18GlobalSvc)
+	var text string
+	switch form {
+	case "null":
+		text = "blocked_services:\n  schedule: null\n" + ids
+	case "tilde":
+		text = "blocked_services:\n  schedule: ~\n" + ids
+	case "blank":
+		text = "blocked_services:\n  schedule:\n" + ids
+	case "absent":
+		text = "blocked_services:\n" + ids
+	default:
+		text = "blocked_services:\n"
+	}
+
+	if err := yaml.Unmarshal([]byte(text), conf); err != nil {
+		return nil, err.Error()
+	}
+
+	h = zzC18NewHolderWith(t, conf.BlockedServices)
+	h.noIDs = form == "section-blank"
+
+	return h, "loaded " + strings.ReplaceAll(text, "\n", "\\n")
 }
 
 // putNull sends an update without a schedule.
@@ -244,6 +282,12 @@ func (h *zzC18Holder) get() (doc *zzC18Doc, err error) {
 		_ = json.Unmarshal(raw, &doc.TZ)
 	}
 
+	if resp.Schedule == nil {
+		// "schedule": null is read as what it says: no range on any day (the
+		// empty schedule of the default zone).
+		doc.TZ = "Local"
+	}
+
 	for i, k := range zzC18DayKeys {
 		raw, has := resp.Schedule[k]
 		if !has || string(raw) == "null" {
@@ -278,19 +322,31 @@ func (h *zzC18Holder) get() (doc *zzC18Doc, err error) {
 
 // contains asks the schedule object in effect directly (state read for the
 // abstraction function).
-func (h *zzC18Holder) contains(t time.Time) (ok bool) {
+func (h *zzC18Holder) contains(t time.Time) (ok bool, panicked string) {
 	h.d.confMu.RLock()
 	defer h.d.confMu.RUnlock()
+	defer func() {
+		if r := recover(); r != nil {
+			panicked = fmt.Sprint(r)
+		}
+	}()
 
-	return h.d.conf.BlockedServices.Schedule.Contains(t)
+	bs := h.d.conf.BlockedServices
+	if bs == nil {
+		// No blocked services at all: no schedule object to ask; the DNS
+		// path is asked instead.
+		return false, ""
+	}
+
+	return bs.Schedule.Contains(t), ""
 }
 
 // paused asks the DNS path at virtual time t: the pause schedule is in effect
 // iff a host of the globally blocked service is not answered as blocked.
-func (h *zzC18Holder) paused(t time.Time) (ok, valid bool) {
+func (h *zzC18Holder) paused(t time.Time) (ok, valid bool, panicked string) {
 	o := zzC18At(h.d, t, false, &h.useClient)
 
-	return !o.globalBlocked, !o.foreign && o.now.Equal(t)
+	return !o.globalBlocked, !o.foreign && o.now.Equal(t), o.panicked
 }
 
 // zzC18World is the pair of holders a walk acts on.
@@ -308,6 +364,9 @@ type zzC18StepObs struct {
 	detail string
 	got    zzC18Pair
 	eff    []string
+
+	// panics counts the probes that were not answered at all.
+	panics int
 }
 
 // observe reads back what both holders have in effect and compares Contains
@@ -334,7 +393,12 @@ func (wd *zzC18World) observe(rng *rand.Rand, eff map[string][][2]int64, o *zzC1
 				at = at.UTC()
 			}
 
-			if c := h.contains(at); c != (p[1] == 1) {
+			c, pv := h.contains(at)
+			switch {
+			case pv != "":
+				o.panics++
+				o.eff = append(o.eff, fmt.Sprintf("%s: Contains(%s) panics: %s", name, at.UTC().Format(time.RFC3339), pv))
+			case c != (p[1] == 1):
 				o.eff = append(o.eff, fmt.Sprintf("%s: Contains(%s)=%v", name, at.UTC().Format(time.RFC3339), c))
 			}
 		}
@@ -343,7 +407,14 @@ func (wd *zzC18World) observe(rng *rand.Rand, eff map[string][][2]int64, o *zzC1
 		if len(tab) > 0 {
 			p := tab[rng.Intn(len(tab))]
 			at := time.Unix(p[0], 0)
-			if ps, valid := h.paused(at); valid && ps != (p[1] == 1) {
+			ps, valid, pv := h.paused(at)
+			switch {
+			case pv != "":
+				o.panics++
+				o.eff = append(o.eff, fmt.Sprintf("%s: DNS path at %s panics: %s", name, at.UTC().Format(time.RFC3339), pv))
+			case valid && !h.noIDs && ps != (p[1] == 1):
+				// (Without any blocked service there is nothing whose
+				// blocking could be paused.)
 				o.eff = append(o.eff, fmt.Sprintf("%s: paused(%s)=%v", name, at.UTC().Format(time.RFC3339), ps))
 			}
 		}
@@ -361,6 +432,12 @@ func (wd *zzC18World) do(rng *rand.Rand, st *zzC18Step) (o zzC18StepObs) {
 	switch st.Act {
 	case "null":
 		o.ok, o.detail = wd.h[name].putNull()
+	case "yamlnone":
+		nh, detail := zzC18LoadNone(wd.t, st.Form)
+		o.ok, o.detail = nh != nil, detail
+		if nh != nil {
+			wd.h[name] = nh
+		}
 	case "yaml", "json":
 		nh, detail := zzC18Load(wd.t, rng, st.Act, st.Doc)
 		o.ok, o.detail = nh != nil, detail
@@ -419,14 +496,14 @@ func TestZZVerifC18Holder(t *testing.T) {
 	InitModule()
 	wd := zzC18NewWorld(t)
 
-	var steps, bad, installs, rejects, resyncs, truncated int
+	var steps, bad, badNoSchedule, installs, rejects, resyncs, truncated int
 	zzReadNDJSON(t, "VERIF_IN", func(line []byte) {
 		st := &zzC18Step{}
 		if err := json.Unmarshal(line, st); err != nil {
 			t.Fatalf("bad step: %v", err)
 		}
 
-		if bad >= 40 {
+		if bad-badNoSchedule >= 40 {
 			// Enough reproduced disagreements: the rest of the walk is not
 			// taken, only counted.
 			if !st.Reset {
@@ -477,6 +554,13 @@ func TestZZVerifC18Holder(t *testing.T) {
 		bad++
 		what := "holder-state-differs"
 		switch {
+		case st.Act == "yamlnone" && o2.ok && o2.panics > 0 && o2.panics == len(o2.eff) &&
+			o2.got.G.equal(st.Dst.G) && o2.got.C.equal(st.Dst.C):
+			// Loaded, reads back as the empty schedule, but nothing that
+			// consults it answers.  (Not counted against the cap: cheap, and
+			// every such edge shows it.)
+			what = "holder-no-schedule-panics"
+			badNoSchedule++
 		case o2.ok != (st.Out == "ok") && o2.ok:
 			what = "holder-accepted"
 		case o2.ok != (st.Out == "ok"):
@@ -504,7 +588,7 @@ func TestZZVerifC18Holder(t *testing.T) {
 
 	w.put(map[string]any{
 		"kind": "summary", "steps": steps, "bad": bad, "installs": installs, "rejects": rejects, "resyncs": resyncs,
-		"truncated": truncated,
+		"truncated": truncated, "bad_no_schedule": badNoSchedule,
 	})
 }
 
@@ -635,10 +719,14 @@ func TestZZVerifC18HolderTrace(t *testing.T) {
 			continue
 		}
 
-		st := &zzC18Step{H: []string{"g", "c"}[rng.Intn(2)], Act: []string{"put", "put", "put", "null", "yaml", "json"}[rng.Intn(6)]}
+		st := &zzC18Step{
+			H:   []string{"g", "c"}[rng.Intn(2)],
+			Act: []string{"put", "put", "put", "put", "null", "yaml", "yaml", "json", "yamlnone"}[rng.Intn(9)],
+		}
 		doc := &zzC18Doc{TZ: zones[rng.Intn(len(zones))], W: make([][4]int64, 7)}
-		if st.Act == "null" {
+		if st.Act == "null" || st.Act == "yamlnone" {
 			doc.TZ = "Local"
+			st.Form = []string{"null", "tilde", "blank", "absent", "section-blank"}[rng.Intn(5)]
 		} else {
 			for d := range doc.W {
 				doc.W[d] = zzC18RandDay(rng)
@@ -655,7 +743,8 @@ func TestZZVerifC18HolderTrace(t *testing.T) {
 		st.Doc = doc
 		o := wd.do(rng, st)
 
-		line := map[string]any{"k": "op", "h": st.H, "act": st.Act, "ok": zzC18B(o.ok)}
+		line := map[string]any{"k": "op", "h": st.H, "act": st.Act, "form": st.Form, "ok": zzC18B(o.ok)}
+		panics := 0
 		line["tz"] = doc.TZ
 		line["w"], line["wn"] = split(doc)
 		for _, name := range []string{"g", "c"} {
@@ -672,13 +761,34 @@ func TestZZVerifC18HolderTrace(t *testing.T) {
 			for k := 0; k < 4; k++ {
 				at := time.Unix(lo+rng.Int63n(hi-lo), 0)
 				_, off := at.In(loc).Zone()
-				probes = append(probes, [3]int64{at.Unix(), int64(off), int64(zzC18B(wd.h[name].contains(at)))})
+				c, pv := wd.h[name].contains(at)
+				ans := int64(zzC18B(c))
+				if pv == "" && k == 0 {
+					// The first probe also through the DNS path.
+					if _, _, dv := wd.h[name].paused(at); dv != "" {
+						pv = dv
+					}
+				}
+
+				if pv != "" {
+					// Not answered at all.
+					ans = 2
+					panics++
+				}
+
+				probes = append(probes, [3]int64{at.Unix(), int64(off), ans})
 			}
 
 			gw, gn := split(got)
 			line[name] = map[string]any{"tz": got.TZ, "w": gw, "wn": gn, "probes": probes}
 		}
 
+		line["panics"] = panics
 		w.put(line)
+		if panics > 0 {
+			// A holder that cannot be asked any more: the history ends here.
+			wd = zzC18NewWorld(t)
+			w.put(map[string]any{"k": "reset"})
+		}
 	}
 }
